@@ -36,6 +36,7 @@ PROP = 'C20'
 
 class Sys:
     falling = False
+    empties = False          # reports / refreshes may also hand over an EMPTY set
 
     def __init__(self, h0=0):
         from electrumx.server.controller import Notifications
@@ -93,11 +94,15 @@ class Sys:
                     ev.append(('backup', n))
         else:
             ev.append(('cu_report',))
+            if self.empties:
+                ev.append(('cu_report', 'empty'))
         if self.mp is None:
             if self.D == self.H:
                 ev.append(('mp_begin',))
         else:
             ev.append(('mp_end',))
+            if self.empties:
+                ev.append(('mp_end', 'empty'))
         if not self.started and self.mp_done and self.ph == 'idle':
             ev.append(('start',))
         return ev
@@ -117,11 +122,12 @@ class Sys:
             self.H = self.B
             self.ph = 'reporting'
         elif k == 'cu_report':
-            t = self.token('b')
+            empty = len(ev) > 1
+            t = None if empty else self.token('b')
             self.calls.append(('bp', t, self.B))
             self.R = self.B
             self.ph = 'idle'
-            run_sync(self.n.on_block({t}, self.B))
+            run_sync(self.n.on_block(set() if empty else {t}, self.B))
         elif k == 'backup':
             self.B -= ev[1]
             self.H = self.B
@@ -131,9 +137,10 @@ class Sys:
         elif k == 'mp_end':
             h, self.mp = self.mp, None
             self.mp_done += 1
-            t = self.token('m')
+            empty = len(ev) > 1
+            t = None if empty else self.token('m')
             self.calls.append(('mp', t, h))
-            run_sync(self.n.on_mempool({t}, h))
+            run_sync(self.n.on_mempool(set() if empty else {t}, h))
         elif k == 'start':
             self.started = True
             self.calls.append(('start', self.H))
@@ -182,7 +189,9 @@ def check_closings(hist, res):
         # further reorganisation; those continuations are explored by the search itself
         return 0
     n = 0
-    for kind in ('a',):
+    # closing 'a' hands over fresh tokens; closing 'e' is the idle system: the report and the
+    # refresh both carry an empty set
+    for kind in ('a', 'e'):
         s = build(hist)
         seq = []
         if s.mp is not None:
@@ -197,9 +206,10 @@ def check_closings(hist, res):
             tail.append(('bp_advance',))
             s.apply(tail[-1])
         # the idle poll reports the current height again every few seconds, then one refresh
-        more = [('cu_flush',), ('cu_report',), ('mp_begin',), ('mp_end',)]
+        more = [('cu_flush',), ('cu_report',), ('mp_begin',), ('mp_end',)] if kind == 'a' else \
+            [('cu_flush',), ('cu_report', 'empty'), ('mp_begin',), ('mp_end', 'empty')]
         for ev in more:
-            if ev not in s.enabled(99):
+            if ev[:1] not in s.enabled(99):
                 raise common.Broken(f'closing event {ev} not enabled after {hist}+{seq}+{tail}')
             s.apply(ev)
         full = seq + tail + more
@@ -237,6 +247,7 @@ def run_case(case, res):
         return
     maxh, depth = case['maxh'], case['depth']
     Sys.falling = bool(case.get('falling'))
+    Sys.empties = bool(case.get('empties'))
     root = []
     seen = {build(root).canon()}
     frontier = collections.deque([root])
@@ -261,7 +272,7 @@ def run_case(case, res):
             continue
         for ev in s.enabled(maxh):
             transitions += 1
-            res.distinct('event_kinds', ev[0])
+            res.distinct('event_kinds', ev[0] + ('-empty' if len(ev) > 1 and ev[1] == 'empty' else ''))
             nxt = hist + [ev]
             k = build(nxt).canon()
             if k not in seen:
@@ -274,16 +285,19 @@ def run_case(case, res):
     res.sample({'example_history': [list(e) for e in hist], 'calls_on_real_object': build(hist).calls})
 
 
-ALL_EVENTS = {'daemon_fall', 'new_block', 'bp_advance', 'bp_flush', 'cu_flush', 'cu_report', 'backup',
+ALL_EVENTS = {'cu_report-empty', 'mp_end-empty', 'daemon_fall', 'new_block', 'bp_advance', 'bp_flush', 'cu_flush', 'cu_report', 'backup',
               'mp_begin', 'mp_end', 'start'}
 
 
 def run(tier, seed, started):
     maxh, depth = (3, 40) if tier == 'quick' else (4, 60)
     fmaxh = 2 if tier == 'quick' else 3
+    emaxh = 2 if tier == 'quick' else 3
     res = common.farm(run_case, [{'maxh': maxh, 'depth': depth},
-                                 {'maxh': fmaxh, 'depth': depth, 'falling': True}], seed=seed,
-                      nproc=2, chunk=1)
+                                 {'maxh': fmaxh, 'depth': depth, 'falling': True},
+                                 {'maxh': emaxh, 'depth': depth, 'empties': True},
+                                 {'maxh': emaxh - 1, 'depth': depth, 'empties': True, 'falling': True}],
+                      seed=seed, nproc=4, chunk=1)
     c = res.counters
     if c.get('states', 0) < 500 or res.sets.get('event_kinds') != ALL_EVENTS:
         raise common.Broken(f'vacuous C20 run: {c} {res.sets.get("event_kinds")}')
@@ -307,7 +321,9 @@ def run(tier, seed, started):
     }
     assumptions = ['phase 1: daemon height never decreases (C03 premise); phase 2: the daemon may '
                    f'also fall by 1 or 2 (heights 0..{fmaxh}), which is what makes reported heights '
-                   'fall', 'a token stands for any non-empty set of script hashes']
+                   f'fall; phases 3 and 4 (heights 0..{emaxh} / 0..{emaxh - 1} with a falling daemon): '
+                   'every report and refresh may also carry an empty set',
+                   'a token stands for any non-empty set of script hashes']
     return finish(PROP, tier, seed, 'model_checking', res, coverage, assumptions, started)
 
 
